@@ -3,3 +3,5 @@ import TrionModel.Props.C17
 import TrionModel.Props.C09
 import TrionModel.Props.C10Parse
 import TrionModel.Props.C12Parse
+import TrionModel.Props.C16
+import TrionModel.Props.C18
